@@ -66,6 +66,22 @@ example : makeSliceAndPad 7 12 10 = .ok ((7, 10), (0, 2), true) := by rfl
 
 /-! ## the crop window of `prepare_affine` -/
 
+/-! Normal forms of the regenerated kernel. The theorems below are stated through these three facts, so a
+re-ordering of terms in the source (`margin + int(2*order + x0 + s + 1)`, …) only has to get past them. -/
+
+theorem paa_x0 (c : Rat) (s order : Int) :
+    (prepareAffineAxis c s order).1 = Py.trunc (c - (s : Rat) / 2 - (order : Rat)) := by
+  simp only [prepareAffineAxis] <;> first | rfl | (congr 1; grind)
+
+theorem paa_x1 (c : Rat) (s order : Int) :
+    (prepareAffineAxis c s order).2.1
+      = (prepareAffineAxis c s order).1 + s + 2 * order + 1 + (if order = 0 then 1 else 0) := by
+  simp only [prepareAffineAxis] <;> omega
+
+theorem paa_newc (c : Rat) (s order : Int) :
+    (prepareAffineAxis c s order).2.2 = c - (((prepareAffineAxis c s order).1 : Int) : Rat) := by
+  simp only [prepareAffineAxis] <;> first | rfl | grind
+
 /-- The window has `s + 2·order + 1` voxels, one more for nearest-neighbour sampling (`order = 0`). -/
 theorem window_width (c : Rat) (s order : Int) :
     (prepareAffineAxis c s order).2.1 - (prepareAffineAxis c s order).1
@@ -95,7 +111,7 @@ theorem window_margin (c t : Rat) (s order : Int)
     (((prepareAffineAxis c s order).1 : Rat) + (order : Rat) + 1 / 2 ≤ t
         ∨ (prepareAffineAxis c s order).1 ≤ 0)
     ∧ t + (order : Rat) - 1 / 2 < (((prepareAffineAxis c s order).2.1 : Int) : Rat) - 1 := by
-  simp only [prepareAffineAxis]
+  rw [paa_x1, paa_x0]
   generalize hq : (c - (s : Rat) / 2 - (order : Rat)) = q
   have h1 := Py.trunc_gt q
   have h2 := Py.trunc_le_max q
@@ -141,7 +157,8 @@ theorem window_order0 (c t : Rat) (s : Int)
     (ht1 : c - ((s : Rat) - 1) / 2 ≤ t) (ht2 : t ≤ c + ((s : Rat) - 1) / 2) :
     (((prepareAffineAxis c s 0).1 : Rat) + 1 / 2 ≤ t ∨ (prepareAffineAxis c s 0).1 ≤ 0)
       ∧ t + 1 / 2 < (((prepareAffineAxis c s 0).2.1 : Int) : Rat) - 1 := by
-  simp only [prepareAffineAxis, if_true]
+  rw [paa_x1, paa_x0]
+  simp only [if_true]
   generalize hq : (c - (s : Rat) / 2 - ((0 : Int) : Rat)) = q at *
   have h1 := Py.trunc_gt q
   have h2 := Py.trunc_le_max q
